@@ -492,6 +492,108 @@ def tree_case(t, rd, files, cs, dg):
     return [10, 1, root_tree_of(rd), edit, list(top.dkeys), [node(c) for c in top.children], list(t.final_keys), tbl]
 
 
+def prog_case(prog, rd, dg):
+    """the program as a case for the model of the editing operations (Model/EdOps.v, run_C10 op 2 in Model/Run.v):
+    [10, 2, root, [[code, args]]] and, per program operation, the indices of the model operations it became
+    (None from the first operation the model does not cover)"""
+    ops, where = [], []
+    covered = True
+    for k, op in enumerate(prog):
+        kind = op["op"]
+        mine = []
+        def emit(code, arg):
+            mine.append(len(ops))
+            ops.append([code, arg])
+        if not covered:
+            where.append(None)
+            continue
+        if kind == "new":
+            if k != 0:
+                covered = False
+        elif kind == "add_target":
+            raw = op["content"].encode()
+            emit(0, [C.enc(op["name"]), len(raw), dg.of_bytes(raw)])
+        elif kind == "remove_target":
+            emit(1, [C.enc(op["name"])])
+        elif kind == "clear_targets":
+            emit(2, [])
+        elif kind in ("versions", "expires"):
+            base = 3 if kind == "versions" else 4
+            for j, f in enumerate(("targets", "snapshot", "timestamp")):
+                if op.get(f) is not None:
+                    emit(base + 2 * j, op[f] if kind == "versions" else z_tree(op[f]))
+        elif kind == "delegate_role":
+            if "prefixes" in op:
+                covered = False
+            else:
+                emit(9, [C.enc(op["name"]), list(op["keys"]), [0, [C.enc(x) for x in op["paths"]]], op["threshold"],
+                         z_tree(op["expires"]), op["version"]])
+        elif kind == "sign_targets_editor":
+            emit(10, list(op["keys"]))
+        elif kind == "change_delegated_targets":
+            emit(11, C.enc(op["role"]))
+        elif kind == "from_repo":
+            emit(12, [])
+        elif kind == "sign_write":
+            emit(13, list(op["keys"]))
+        elif kind in ("load", "files"):
+            pass
+        else:
+            covered = False
+        where.append(mine if covered else None)
+    return [10, 2, root_tree_of(rd), ops], where
+
+
+def canon_sign_state(edit, dkeys, children, keys):
+    def node(n):
+        return [n[0], n[1], n[2], sorted(n[3]), sorted(n[4]), [node(c) for c in n[5]], sorted(n[6])]
+    return [[sorted(edit[0])] + list(edit[1:]), sorted(dkeys), [node(c) for c in children], sorted(set(keys))]
+
+
+def check_sign_state(chk, tc, sign_states, j, full):
+    """the state the tracker computed for a sign call against the state the model of the editing operations
+    (ed_run / ed_at_sign) reaches; tc is what ed_sign_tree is then run on"""
+    if sign_states is None or j >= len(sign_states):
+        chk.count("edops-sign-state-not-reached")
+        return
+    ss = sign_states[j]
+    if ss == [0] or canon_sign_state(ss[1], ss[2], ss[3], ss[4]) != canon_sign_state(tc[3], tc[4], tc[5], tc[6]):
+        chk.broken("correspondence: the state sign works on differs between the model of the editing operations (ed_run) "
+                   "and the tracker of what the program put in",
+                   dict(full, model_state=ss, tracked_state=tc[3:7]))
+    else:
+        chk.count("edops-sign-state-compared")
+
+
+def compare_program(chk, prog, res, where, mres, full):
+    """the answers of the real editor, operation by operation, against the model of the editing operations"""
+    if not (isinstance(mres, list) and len(mres) == 2):
+        chk.broken("correspondence: the model of the editing operations gave no answer", dict(full, model=mres))
+        return None
+    status = mres[0]
+    for k, op in enumerate(prog):
+        if k >= len(res) or where[k] is None:
+            break
+        if res[k][0] == 997:
+            break
+        if not where[k]:
+            continue
+        impl_ok = res[k][0] == 0
+        model_ok = all(status[j] == 1 for j in where[k])
+        if impl_ok != model_ok:
+            chk.broken("correspondence: operation %d (%s) is %s by the real editor and %s by the model of the editing "
+                       "operations" % (k, op["op"], "accepted" if impl_ok else "refused", "accepted" if model_ok else "refused"),
+                       dict(full, model=mres))
+            return None
+        chk.count("edops-operation-compared")
+        if not impl_ok:
+            # a refused call leaves the editor as it was, except sign (consumes it) and the harness's compound
+            # versions/expires operations (the setters before the failing one have run)
+            if op["op"] in ("sign_write", "versions", "expires"):
+                break
+    return mres[1]
+
+
 class Unabstractable(Exception):
     pass
 
@@ -763,9 +865,14 @@ def run(chk):
     out = C.run_impl(cases)
     pool_ids = [C.b2s(e[0]) for e in C.run_impl([[12, 1]])[0]]
     pool_all = [C.b2s(e) for e in C.run_impl([[12, 3]])[0]]
+    # the Coq model of the editing operations (Model/EdOps.v) on every program: answers per operation, and
+    # the state each sign call works on
+    dgs = [Digests() for _ in cases]
+    pcs = [prog_case(c["program"], c["docs"][c["root"]], dg) for c, dg in zip(cases, dgs)]
+    pres = C.run_model([pc[0] for pc in pcs])
     ed_cases = []        # (index, model case, abstraction of the written files)
     tree_cases = []      # the same for ed_sign_tree: (description, model case, abstraction of the written files | None)
-    for (kind, it, cs, info), c, o in zip(infos, cases, out):
+    for (kind, it, cs, info), c, o, dg0, pc, pr in zip(infos, cases, out, dgs, pcs, pres):
         chk.seen([kind, json.dumps(c["program"])[:2000]], True)
         chk.count(kind)
         res = o.get("results") if isinstance(o, dict) else None
@@ -775,6 +882,7 @@ def run(chk):
             chk.broken("editor run crashed", desc)
             continue
         full = dict(desc, final_files=o["final_files"])
+        sign_states = compare_program(chk, c["program"], res, pc[1], pr, full)
         # locate sign_write / load
         ops = [p["op"] for p in c["program"]]
         sw = max(k for k, p in enumerate(ops) if p == "sign_write")
@@ -806,7 +914,9 @@ def run(chk):
                 # ed_sign_tree, given what the program put in, must refuse too
                 t = track(c["program"], bad)
                 if t is not None:
-                    tree_cases.append((full, tree_case(t, c["docs"][c["root"]], None, cs, Digests()), None))
+                    tc = tree_case(t, c["docs"][c["root"]], None, cs, dg0)
+                    check_sign_state(chk, tc, sign_states, ops[:bad].count("sign_write"), full)
+                    tree_cases.append((full, tc, None))
                 else:
                     chk.count("ed_sign_tree-not-tracked")
             if kind == "program" and not it.roles and bad == sw and "from_repo" not in ops:
@@ -830,8 +940,9 @@ def run(chk):
             if t is None:
                 chk.count("ed_sign_tree-not-tracked")
             else:
-                dg = Digests()
+                dg = dg0
                 tc = tree_case(t, c["docs"][c["root"]], o["final_files"], cs, dg)
+                check_sign_state(chk, tc, sign_states, ops[:sw].count("sign_write"), full)
                 try:
                     wt = written_tree(o["final_files"], cs, o["base"], pool_all, dg, c["docs"][c["root"]]["version"])
                     tree_cases.append((full, tc, wt))
